@@ -6,6 +6,14 @@ ROOT = os.path.dirname(os.path.dirname(os.path.abspath(__file__)))
 
 # id -> (technique, level text, level note, design ref)
 CLAIMED = {
+ "C14": ("wire-sequence extraction by finite-assignment CFG walk of encoder and decoder (compared with each other, no oracle), emission-table ∘ parse-table composition over all option assignments, sibling agreement of the two TransferOpts literals, handshake sequence extraction",
+         "Decides: for all 7×64 (file type × option subset) assignments the decoder consumes exactly what the encoder emits; every option the server consults is forwarded and arrives with the client's value (2^n assignments through the extracted emission and parse tables); both receiver configurations bind fields to the same accessors; handshake and filter-list reads/writes are mirror images. Desynchronisation freedom for options outside the accepted set is not decided.",
+         "Trusted: the extraction vocabulary (atoms) — anything outside it makes the check undecided (fails closed). Two genuine defects repaired by fix: commits.",
+         "DESIGN.md §3 C14"),
+ "C15": ("wire-sequence extraction (7×64 encoder, 7×64×128 decoder assignments) compared with a frozen protocol-27 table; constant table; sibling agreement (longint, checksum header); sort/numbering dominance",
+         "Partial: the oracle is a transcription of protocol 27 (rsync 2.6.x flist.c/io.c/rsync.h), not a foreign implementation. Decides that encoder and decoder field sequences, flag-controlled alternatives, same-as-previous copies, constants, longint encoding, checksum header order and file numbering conform to that table.",
+         "Trusted: the transcription itself (listed in evidence trusted_base). No independent protocol-27 implementation can be run statically.",
+         "DESIGN.md §3 C15"),
  "C20": ("field-store enumeration of the SSH server config, decision-table extraction of the public-key callback, string-dispatch surface extraction, call-graph unreachability from the anonymous exec callback",
          "Decides: only public-key auth is ever configured; the key callback accepts iff the listener is anonymous or the presented key is in the loaded set (which is non-nil whenever an authorised address is configured); only session channels and env/exec requests are handled; from the anonymous listener's exec callback no CLI/client entry, process spawn, dial or listener is reachable while the daemon handler is.",
          "Trusted: x/crypto/ssh. Context-insensitive reachability (a mode check inside the general entry point would still be reported). One genuine defect repaired by a fix: commit.",
